@@ -232,6 +232,47 @@ func isMutexOp(c *ssa.CallCommon) (op string, recv ssa.Value) {
 	return "", nil
 }
 
+// MutexOp is IsMutexOp that also resolves a mutex handed to a private
+// function as a parameter (`func (b *barrier) wait(mu *sync.Mutex)`), when
+// every call site passes the same mutex field.
+func (a *Analysis) MutexOp(c *ssa.CallCommon) (op string, path Path, ok bool) {
+	if op, path, ok = IsMutexOp(c); ok {
+		return
+	}
+	o, recv := isMutexOp(c)
+	if o == "" {
+		return "", Path{}, false
+	}
+	par, isPar := recv.(*ssa.Parameter)
+	if !isPar {
+		return "", Path{}, false
+	}
+	f := par.Parent()
+	idx := -1
+	for i, q := range f.Params {
+		if q == par {
+			idx = i
+		}
+	}
+	sites := a.P.Callers(f)
+	if idx < 0 || len(sites) == 0 || a.P.UsedAsValue(f) || ir.Exported(f) {
+		return "", Path{}, false
+	}
+	var found Path
+	for i, s := range sites {
+		args := s.Instr.Common().Args
+		if idx >= len(args) {
+			return "", Path{}, false
+		}
+		lp, okp := LockPath(args[idx])
+		if !okp || (i > 0 && lp != found) {
+			return "", Path{}, false
+		}
+		found = lp
+	}
+	return o, found, true
+}
+
 // IsMutexOp exposes mutex-call recognition.
 func IsMutexOp(c *ssa.CallCommon) (op string, path Path, ok bool) {
 	o, recv := isMutexOp(c)
@@ -585,7 +626,7 @@ func (a *Analysis) transfer(f *ssa.Function, st State, ins ssa.Instruction, sum 
 
 func (a *Analysis) applyCall(f *ssa.Function, st State, ci ssa.CallInstruction, ins ssa.Instruction, kind string, sum *Summary) {
 	c := ci.Common()
-	if op, lp, ok := IsMutexOp(c); ok {
+	if op, lp, ok := a.MutexOp(c); ok {
 		sum.Touches[lp] = true
 		if op == "lock" {
 			st.add(Held, lp)
